@@ -688,20 +688,30 @@ impl<'p> Ctx<'p> {
             this.program.register_native_func(n, &[x]);
         }
         for (name, is_code, text) in &world.ext {
-            let iname = this.program.intern_str(name);
-            if *is_code {
-                let vname = format!("<ext:{name}>");
-                if let Ok(t) = this.cb.load_data(&mut this.program, &vname, text.as_bytes()) {
-                    this.program.add_ext_var(iname, &t);
-                    this.ext_loaded.push(name.clone());
-                }
-            } else {
-                let t = this.program.value_to_thunk(&Value::string(text));
-                this.program.add_ext_var(iname, &t);
-                this.ext_loaded.push(name.clone());
-            }
+            this.add_ext(name, *is_code, text);
         }
         this
+    }
+
+    /// `Program::add_ext_var` (a name can be set only once; a second request for it is ignored). Returns whether
+    /// the variable was added.
+    pub fn add_ext(&mut self, name: &str, is_code: bool, text: &str) -> bool {
+        if self.ext_loaded.iter().any(|n| n == name) {
+            return false;
+        }
+        let iname = self.program.intern_str(name);
+        if is_code {
+            let vname = format!("<ext:{name}>");
+            match self.cb.load_data(&mut self.program, &vname, text.as_bytes()) {
+                Ok(t) => self.program.add_ext_var(iname, &t),
+                Err(_) => return false,
+            }
+        } else {
+            let t = self.program.value_to_thunk(&Value::string(text));
+            self.program.add_ext_var(iname, &t);
+        }
+        self.ext_loaded.push(name.to_string());
+        true
     }
 
     /// Installs a schedule; ordinals are counted from this point.
